@@ -14,6 +14,7 @@ Rendered class names are distinct (K0, K1, ...), dialects are module-level D1, D
 from __future__ import annotations
 
 import dataclasses
+import enum
 import re
 import sys
 import types
@@ -45,9 +46,19 @@ from mashumaro.mixins.orjson import DataClassORJSONMixin
 from mashumaro.mixins.msgpack import DataClassMessagePackMixin
 from mashumaro.mixins.yaml import DataClassYAMLMixin
 from mashumaro.mixins.toml import DataClassTOMLMixin
-from mashumaro.config import BaseConfig, ADD_DIALECT_SUPPORT, TO_DICT_ADD_OMIT_NONE_FLAG
+from mashumaro.config import (BaseConfig, ADD_DIALECT_SUPPORT, TO_DICT_ADD_OMIT_NONE_FLAG, TO_DICT_ADD_BY_ALIAS_FLAG,
+                              ADD_SERIALIZATION_CONTEXT)
+import orjson, ast as _ast
+import c14aux_a, c14aux_b
 from mashumaro.dialect import Dialect
 T = TypeVar("T")
+U = TypeVar("U")
+def enc_mark(d, **kw):
+    """a caller-supplied encoder: shows what it was given"""
+    return ["ENC", sorted(kw.items()), d]
+def dec_lit(data, **kw):
+    """a caller-supplied decoder: the wire is the repr of the basic form"""
+    return _ast.literal_eval(data if isinstance(data, str) else data.decode())
 class D1(Dialect):
     omit_none = True
 class D2(Dialect):
@@ -55,26 +66,90 @@ class D2(Dialect):
 '''
 
 
+AUX = {
+    "c14aux_a": "import enum\nclass Tag(enum.Enum):\n    X = 'x'\n    Y = 'y'\n",
+    "c14aux_b": "import enum\nclass Tag(enum.Enum):\n    X = 'x'\n    Z = 'z'\n",
+}
+
+
+def ensure_aux():
+    """two modules that both define a class named Tag (same qualname, different modules)"""
+    for name, src in AUX.items():
+        if name not in sys.modules:
+            m = types.ModuleType(name)
+            sys.modules[name] = m
+            exec(compile(src, f"<{name}>", "exec"), m.__dict__)
+
+
+# type arguments of generic specialisations: key -> (annotation source, rendered name = mashumaro type_name)
+TARGS = {
+    "int": ("int", "int"),
+    "str": ("str", "str"),
+    "listint": ("List[int]", "typing.List[int]"),
+    "auxA": ("c14aux_a.Tag", "c14aux_a.Tag"),
+    "auxB": ("c14aux_b.Tag", "c14aux_b.Tag"),
+}
+TVARS = ["T", "U"]
+
+
+def targ_value_src(key, rng) -> str:
+    if key == "int":
+        return str(rng.randint(0, 99))
+    if key == "str":
+        return repr(rng.choice(["p", "q", "12"]))
+    if key == "listint":
+        return repr([rng.randint(0, 9) for _ in range(rng.randint(0, 2))])
+    if key == "auxA":
+        return "c14aux_a.Tag." + rng.choice("XY")
+    if key == "auxB":
+        return "c14aux_b.Tag." + rng.choice("XZ")
+    return "5"
+
+
 # ---------------------------------------------------------------------------
 # generation
 # ---------------------------------------------------------------------------
 
-def gen_family(rng, max_classes=5) -> dict:
-    n = rng.randint(2, max_classes)
+def pick_targs(rng, nparams, used):
+    """type arguments for one specialisation; `used` = argument tuples already used for the same generic class:
+    with some probability a permutation of one of them, or the same-named class from the other module"""
+    if used and rng.random() < 0.6:
+        base = list(rng.choice(used))
+        r = rng.random()
+        if r < 0.5 and nparams > 1:
+            base.reverse()
+        elif r < 0.8:
+            k = rng.randrange(nparams)
+            base[k] = {"auxA": "auxB", "auxB": "auxA", "int": "str", "str": "int", "listint": "int"}[base[k]]
+        if tuple(base) not in used or rng.random() < 0.3:
+            return base
+    return [rng.choice(["int", "str", "int", "str", "listint", "auxA", "auxB"]) for _ in range(nparams)]
+
+
+def gen_family(rng, max_classes=5, focus=None) -> dict:
+    """focus='spec': a generic class and several holders of its specialisations; focus='kwargs': classes whose
+    first call has something to forward (flags, encoder/decoder kwargs, dialect, context)"""
+    n = rng.randint(3, max_classes) if focus == "spec" else rng.randint(2, max_classes)
     classes = []
     for i in range(n):
         kind = "mixin" if (i == n - 1 or rng.random() < 0.7) else "plain"
-        generic = rng.random() < 0.25 and i < n - 1
+        generic = 0
+        if i < n - 1 and (rng.random() < 0.25 or (focus == "spec" and i == 0)):
+            generic = rng.choice([1, 2, 2])
+        if focus == "spec" and i > 0:
+            kind, generic = "mixin", 0
         mix = []
         dsup = False
         if kind == "mixin":
             mix = ["dict"]
             extra = rng.choice([[], [], ["msgpack"], ["orjson"], ["json"], ["yaml"], ["toml"], ["msgpack", "orjson"],
                                 ["msgpack", "json"]])
+            if focus == "kwargs":
+                extra = rng.choice([["orjson"], ["orjson"], ["msgpack"], ["msgpack", "orjson"], ["toml"], ["json"], []])
             mix = extra or mix
-            dsup = (not generic) and rng.random() < 0.35
+            dsup = (not generic) and rng.random() < (0.5 if focus == "kwargs" else 0.35)
         parent = None
-        if not generic and i > 0 and rng.random() < 0.2:
+        if not generic and i > 0 and rng.random() < 0.2 and focus != "spec":
             cands = [j for j in range(i) if not classes[j]["generic"] and classes[j]["kind"] == kind
                      and not any(f[1][0] == "dc" and f[1][1] >= j and f[1][1] != j for f in classes[j]["fields"])]
             # a subclass repeats nothing; parent must have same kind so that the MRO is simple
@@ -84,10 +159,12 @@ def gen_family(rng, max_classes=5) -> dict:
         nf = rng.randint(1, 3)
         for k in range(nf):
             r = rng.random()
-            if r < 0.45 and n > 1:
+            if (r < 0.45 and n > 1) or (focus == "spec" and i > 0 and k == 0):
                 # nested dataclass position
                 p = rng.random()
-                if p < 0.7 and i > 0:
+                if focus == "spec" and i > 0 and k == 0:
+                    j = 0
+                elif p < 0.7 and i > 0:
                     j = rng.randrange(0, i)
                 elif p < 0.85:
                     j = i
@@ -97,13 +174,17 @@ def gen_family(rng, max_classes=5) -> dict:
                 fields.append([f"f{i}_{k}", ["dc", j, wrap, None]])
             else:
                 fields.append([f"f{i}_{k}", [rng.choice(["int", "str", "optint", "listint", "int"])]])
-        if generic:
-            fields.append(["t", ["T"]])
-        onf = kind == "mixin" and rng.random() < 0.3
-        classes.append({"name": f"K{i}", "kind": kind, "mixins": mix, "dsup": dsup, "onf": onf, "generic": generic,
-                        "parent": parent, "fields": fields})
+        for q in range(generic):
+            fields.append(["tu"[q], ["TV", q]])
+        hot = 0.6 if focus == "kwargs" else 0.3
+        onf = kind == "mixin" and rng.random() < hot
+        baf = kind == "mixin" and parent is None and rng.random() < hot * 0.8
+        ctx = kind == "mixin" and parent is None and rng.random() < hot * 0.8
+        classes.append({"name": f"K{i}", "kind": kind, "mixins": mix, "dsup": dsup, "onf": onf, "baf": baf, "ctx": ctx,
+                        "generic": generic, "parent": parent, "fields": fields})
     # forward references j>i: only towards non-generic classes, wrapped (opt/list/dict); fix type args of
     # generic targets now that all classes are known
+    used = {}
     for i, c in enumerate(classes):
         for f in c["fields"]:
             t = f[1]
@@ -114,7 +195,8 @@ def gen_family(rng, max_classes=5) -> dict:
                         t[0:4] = ["int"]
                         del t[1:]
                         continue
-                    t[3] = rng.choice(["int", "str"])
+                    t[3] = pick_targs(rng, classes[j]["generic"], used.setdefault(j, []))
+                    used[j].append(tuple(t[3]))
     # a subclass whose parent (transitively) forward-references would be postponed as well: allowed.
     return {"classes": classes}
 
@@ -182,12 +264,12 @@ def type_src(fam, t) -> str:
         return "Optional[int]"
     if t[0] == "listint":
         return "List[int]"
-    if t[0] == "T":
-        return "T"
+    if t[0] == "TV":
+        return TVARS[t[1]]
     _, j, wrap, targ = t
     base = fam["classes"][j]["name"]
     if targ:
-        base += f"[{targ}]"
+        base += "[" + ", ".join(TARGS[a][0] for a in targ) + "]"
     return {"plain": base, "opt": f"Optional[{base}]", "list": f"List[{base}]", "dict": f"Dict[str, {base}]"}[wrap]
 
 
@@ -208,22 +290,35 @@ def render(fam: dict, order: list[int], lazy: list[bool]) -> str:
         elif c["kind"] == "mixin":
             bases.extend(MIXINS[m][1] for m in c["mixins"])
         if c["generic"]:
-            bases.append("Generic[T]")
+            bases.append("Generic[" + ", ".join(TVARS[:c["generic"]]) + "]")
         out.append("@dataclass")
         out.append(f"class {c['name']}" + (f"({', '.join(bases)})" if bases else "") + ":")
         # fields without default first (dataclass rule): our nested 'plain' and scalars have no default,
         # wrapped nested have defaults -> use kw_only to be free of ordering
         body = []
+        aliased = False
         for fname, t in c["fields"]:
             d = default_src(t)
+            if c.get("baf") and not aliased and t[0] in ("int", "str"):
+                d = 'field(metadata={"alias": "A_%s"})' % fname
+                aliased = True
             body.append(f"    {fname}: {type_src(fam, t)}" + (f" = {d}" if d else ""))
         out[-2] = "@dataclass(kw_only=True)"
         out.extend(body)
         if c["kind"] == "mixin":
             out.append("    class Config(BaseConfig):")
             out.append(f"        lazy_compilation = {bool(lazy[i])}")
-            opts = (["ADD_DIALECT_SUPPORT"] if c["dsup"] else []) + (["TO_DICT_ADD_OMIT_NONE_FLAG"] if c.get("onf") else [])
+            opts = ((["ADD_DIALECT_SUPPORT"] if c["dsup"] else []) + (["TO_DICT_ADD_OMIT_NONE_FLAG"] if c.get("onf") else [])
+                    + (["TO_DICT_ADD_BY_ALIAS_FLAG"] if c.get("baf") else []) + (["ADD_SERIALIZATION_CONTEXT"] if c.get("ctx") else []))
             out.append(f"        code_generation_options = [{', '.join(opts)}]")
+            if c.get("baf"):
+                out.append("        allow_deserialization_not_by_alias = True")
+            if c.get("ctx"):
+                out.append("    def __post_serialize__(self, d, context=None):")
+                out.append("        if context is not None:")
+                out.append("            d = dict(d)")
+                out.append("            d['ctx_seen'] = repr(context)")
+                out.append("        return d")
         out.append("")
     return "\n".join(out) + "\n"
 
@@ -232,6 +327,7 @@ _counter = [0]
 
 
 def load(src: str, tag: str = "m") -> types.ModuleType:
+    ensure_aux()
     _counter[0] += 1
     name = f"c14fam_{tag}_{_counter[0]}"
     mod = types.ModuleType(name)
@@ -269,8 +365,8 @@ def gen_value(fam, i, rng, depth=0, targ=None):
             v = rng.choice(["None", str(rng.randint(0, 9))])
         elif t[0] == "listint":
             v = repr([rng.randint(0, 9) for _ in range(rng.randint(0, 2))])
-        elif t[0] == "T":
-            v = {"int": str(rng.randint(0, 99)), "str": repr(rng.choice(["p", "q", "12"])), None: "5"}[targ]
+        elif t[0] == "TV":
+            v = targ_value_src(targ[t[1]] if targ else None, rng)
         else:
             k += 1
             _, j, wrap, ta = t
@@ -328,6 +424,8 @@ def canon(x, modname: str | None = None):
         return [type(x).__name__, [canon(v, modname) for v in x]]
     if isinstance(x, (bytes, bytearray)):
         return [type(x).__name__, bytes(x).hex()]
+    if isinstance(x, enum.Enum):
+        return ["enum", type(x).__module__ + "." + type(x).__qualname__, x.name]
     if isinstance(x, (int, float, str, bool)) or x is None:
         return [type(x).__name__, x]
     return ["other", type(x).__name__, re.sub(r"c14fam_\w+?_\d+", "MOD", repr(x))]
